@@ -121,11 +121,20 @@ def build(sc, grad=None, x64=True):
                                      fixed_E_polarization_vector=(1, 0, 0), switch=ssw)
     cons.append(s.place_at_center(vol))
     objs.append(s)
-    if sc.get("eps") or sc.get("sigma_e") or sc.get("sigma_m"):
-        blk = fdtdx.UniformMaterialObject(name="blk", partial_grid_shape=(2, 2, 2),
+    if sc.get("eps") or sc.get("sigma_e") or sc.get("sigma_m") or sc.get("disp"):
+        extra = {}
+        if sc.get("disp"):          # dispersive (ADE) block: FieldState then carries dispersive_P_curr / dispersive_P_prev
+            dsp = sc["disp"]
+            if dsp["kind"] == "lorentz":
+                pole = fdtdx.LorentzPole(resonance_frequency=dsp.get("w0", 2e15), damping=dsp.get("gamma", 1e13),
+                                         delta_epsilon=dsp.get("deps", 1.5))
+            else:
+                pole = fdtdx.DrudePole(plasma_frequency=dsp.get("wp", 2e15), damping=dsp.get("gamma", 1e14))
+            extra["dispersion"] = fdtdx.DispersionModel(poles=(pole,))
+        blk = fdtdx.UniformMaterialObject(name="blk", partial_grid_shape=tuple(sc.get("blk_shape", (2, 2, 2))),
                                           material=fdtdx.Material(permittivity=sc.get("eps") or 1.0,
                                                                   electric_conductivity=sc.get("sigma_e") or 0.0,
-                                                                  magnetic_conductivity=sc.get("sigma_m") or 0.0))
+                                                                  magnetic_conductivity=sc.get("sigma_m") or 0.0, **extra))
         cons.append(blk.place_relative_to(vol, axes=(0, 1, 2), own_positions=(-1, -1, -1), other_positions=(-1, -1, -1),
                                           grid_margins=(1,) * 3))
         objs.append(blk)
@@ -168,18 +177,45 @@ def dirty(j, arrays, seed):
     return arrays.aset("detector_states", ds)
 
 
+def container_leaves(arrays):
+    """EVERY leaf of the ArrayContainer pytree, generically (no attribute name list): list of (group, key, leaf) with group in
+    {'fields', 'det', 'rec', 'mat'}.  Keys are the pytree paths; auto-generated object names inside dict keys (PML objects)
+    are replaced by a running index so that two placements of the same scene give the same keys."""
+    import jax
+    out, counters = [], {}
+    for path, leaf in jax.tree_util.tree_leaves_with_path(arrays):
+        names = [getattr(p, "name", None) or getattr(p, "key", None) or getattr(p, "idx", None) for p in path]
+        top = str(names[0])
+        if top == "fields":
+            attr = str(names[1])
+            n = counters.get(attr, 0)
+            counters[attr] = n + 1
+            key = attr if len(names) == 2 else f"{attr}#{n}"
+            out.append(("fields", key, leaf))
+        elif top == "detector_states":
+            out.append(("det", ":".join(str(x) for x in names[1:]), leaf))
+        elif top == "recording_state":
+            out.append(("rec", jax.tree_util.keystr(path[1:]), leaf))
+        else:
+            out.append(("mat", jax.tree_util.keystr(path).lstrip("."), leaf))
+    return out
+
+
 def snapshot(ts, arrays):
-    """(final step, flat dict of numpy arrays): E, H, every detector state"""
-    out = {"E": np.asarray(arrays.fields.E), "H": np.asarray(arrays.fields.H)}
-    for name in ("inv_permittivities", "inv_permeabilities", "electric_conductivity", "magnetic_conductivity"):
-        v = getattr(arrays, name, None)          # the returned container must keep the material / conductivity arrays
-        if v is not None and (hasattr(v, "shape") or isinstance(v, (int, float))):
+    """(final step, flat dict of numpy arrays): every FieldState leaf (E, H, PML auxiliaries psi_*, dispersive polarisation
+    dispersive_P_curr / dispersive_P_prev, ...), every detector state, every material / coefficient leaf"""
+    out = {}
+    for group, key, v in container_leaves(arrays):
+        if group == "fields":
+            out[key if key in ("E", "H") else "fld:" + key] = np.asarray(v)
+        elif group == "det":
+            out["det:" + key] = np.asarray(v)
+        elif group == "mat":
+            # the returned container must keep the material / conductivity / coefficient arrays.
             # a scalar inv_permeabilities is a Python float before the first jitted step and a 0-d array after it:
             # both are the same output (false alarm of C07 thorough seed 41: halt at step 0 vs the un-stepped state)
-            out["mat:" + name] = np.asarray(v, dtype=float) if isinstance(v, (int, float)) else np.asarray(v)
-    for k, v in sorted(arrays.detector_states.items()):
-        for k2, v2 in sorted(v.items()):
-            out[f"det:{k}:{k2}"] = np.asarray(v2)
+            if hasattr(v, "shape") or isinstance(v, (int, float)):
+                out["mat:" + key] = np.asarray(v, dtype=float) if isinstance(v, (int, float)) else np.asarray(v)
     return int(ts), out
 
 
